@@ -8,7 +8,7 @@ HERE = os.path.dirname(os.path.abspath(__file__))
 if HERE not in sys.path:
     sys.path.insert(0, HERE)
 
-import drive, gen, vlib, model, pairs, arith  # noqa: E402
+import drive, gen, vlib, model, pairs, arith, history, fresh  # noqa: E402
 
 BATCH = 1200     # traces per TLC start (JSON loading dominates; keeps the heap small)
 
@@ -513,6 +513,65 @@ def options_stage(R, prop, tier):
     pass
 
 
+# ----------------------------------------------------------------------------------------
+#  C20: independence from process history
+# ----------------------------------------------------------------------------------------
+def check_c20(tier):
+    prop = 'C20'
+    R = vlib.Result(prop, tier)
+    rng = random.Random(vlib.seed() * 1000003 + 20)
+    known = known_ids()
+    class_state_stage(R, prop, tier)
+    H = [(history.BLTS[i % len(history.BLTS)], o, lp) for i, (o, lp) in enumerate(history.HISTORY_CONFIGS)]
+    targets = [(b, o, lp) for (o, lp) in history.TARGET_CONFIGS for b in history.BLTS[:2 if tier == 'quick' else 3]]
+    if tier == 'quick':
+        targets = rng.sample(targets, 14)
+    refs = history.fresh_reference(targets)
+    items = []
+    nh = 0
+    for ti, tgt in enumerate(targets):
+        ref = refs[ti]
+        if tier == 'quick':
+            hs = [[rng.choice(H)] for _ in range(4)] + [[rng.choice(H), rng.choice(H)] for _ in range(5)] + [[rng.choice(H) for _ in range(3)] for _ in range(2)]
+            # always: every single-election history with another arithmetic class before this target
+            hs += [[h] for h in rng.sample(H, 6)]
+        else:
+            hs = [[h] for h in H] + [[a, b] for a in H for b in rng.sample(H, 6)] + [[rng.choice(H) for _ in range(rng.randint(3, 6))] for _ in range(30)]
+        for hist in hs:
+            nh += 1
+            history.run_history(hist)
+            got = fresh.outputs(*tgt)
+            again = fresh.outputs(*tgt)
+            obs = dict(same_report=got.get('report') == ref.get('report'), same_dump=got.get('dump') == ref.get('dump'),
+                       same_json=got.get('json') == ref.get('json'),
+                       same_twice=(got.get('report'), got.get('dump'), got.get('json')) == (again.get('report'), again.get('dump'), again.get('json')))
+            info = (tgt[0], '(same election in a fresh interpreter)', dict(target=tgt[1], history=[h[1] for h in hist]), tgt[2])
+            if got['trace'] is None or ref['trace'] is None:
+                if not all(obs.values()):
+                    R.violation('C20: renderings differ after history %s for target %s (%s)' % ([h[1] for h in hist], tgt[1], [k for k, v in obs.items() if not v]),
+                                dict(blt=tgt[0], options=tgt[1], history=[dict(blt=h[0], options=h[1]) for h in hist]))
+                items.append((None, info))
+                continue
+            a, b = got['trace'], ref['trace']
+            a['id'] = b['id'] = 0
+            o = pairs.base_obs()
+            o.update(obs)
+            items.append((dict(rel='C20', a=a, b=b, map=list(range(1, a['nc'] + 1)), obs=o, unit=0), info))
+    pair_stage(R, prop, items, known)
+    R.cov['histories'] = nh
+    R.cov['targets'] = len(targets)
+    R.cov['rule'] = ('histories of 1..6 earlier elections (each constructed, counted, reported, dumped, JSON-rendered) drawn from %d configurations covering every '
+                     'arithmetic class and display branch, followed by the election under test; its renderings are compared byte for byte (sha1) with the same '
+                     'election counted in a fresh interpreter (one child process per target) and with an immediate recount; TLC additionally compares the two '
+                     'recorded traces action by action (relation C20 of Pairs.tla)' % len(H))
+    R.assumptions += ['harness/fresh.py child processes give the history-free reference', 'sha1 equality stands for byte equality']
+    return R.finish()
+
+
+def class_state_stage(R, prop, tier):
+    pass
+
+
 COUNT_PROPS = ('C01', 'C02', 'C04', 'C05', 'C06', 'C07', 'C08', 'C09', 'C18')
 
 
@@ -552,6 +611,8 @@ def main(argv):
             return check_pairs(prop, tier)
         if prop in ('C12', 'C14'):
             return check_arith(prop, tier)
+        if prop == 'C20':
+            return check_c20(tier)
         print('no check registered for', prop)
         return 2
     except vlib.Machinery as e:
